@@ -344,7 +344,7 @@ func (s MsgServer) UnbondedOracle(c context.Context, msg *types.MsgUnbondedOracl
 	s.DelOracleAddrByExternalAddr(ctx, oracle.ExternalAddress)
 	s.DelOracleAddrByBridgerAddr(ctx, oracle.GetBridger())
 	s.DelOracle(ctx, oracle.GetOracle())
-	s.DelLastEventNonceByOracle(ctx, oracleAddr)
+	// the per-oracle event cursor is kept: a returning oracle must not vote again for a nonce it already voted for
 
 	return &types.MsgUnbondedOracleResponse{}, nil
 }
